@@ -471,6 +471,35 @@ pub fn run(tier: Tier) -> i32 {
     acc.merge(Acc::merge_all(accs));
     acc.note_n("critical_strings", strs.len() as u64);
 
+    // (a+) control characters next to each other: every ordered pair over the 32 C0 controls, DEL,
+    // a letter, the quote and the backslash; every triple over both ends of the two halves of C0
+    // (an escaper that builds \u00XX from a template or a table meets every neighbour here)
+    {
+        let mut cs: Vec<char> = (0u8..0x20).map(|b| b as char).collect();
+        cs.extend(['\u{7f}', 'a', '"', '\\']);
+        let mut strs: Vec<String> = vec![];
+        for x in &cs {
+            for y in &cs {
+                strs.push(format!("{x}{y}"));
+            }
+        }
+        let ends = ['\0', '\u{1}', '\u{8}', '\n', '\u{f}', '\u{10}', '\u{1b}', '\u{1f}', 'a'];
+        for x in ends {
+            for y in ends {
+                for z in ends {
+                    strs.push(format!("{x}{y}{z}"));
+                }
+            }
+        }
+        let accs = util::par_fold(&strs, Acc::new, |acc, _i, s| {
+            check_value(acc, &json!(s), "control-neighbours");
+            check_value(acc, &json!({ s.clone(): [s.clone()], "k": s.clone() }), "control-neighbours-as-key");
+            acc.nontrivial += 1;
+        });
+        acc.merge(Acc::merge_all(accs));
+        acc.note_n("control_neighbour_strings", strs.len() as u64);
+    }
+
     // (a'') long strings: lengths around typical buffer / fast-path thresholds, with the
     // escaping-relevant characters at the start, in the middle, at the end, and throughout
     let long = long_strings();
@@ -647,7 +676,7 @@ pub fn run(tier: Tier) -> i32 {
     crate::envprobe::judge(&mut acc, "C10:", &mut c.extra);
     c.acc = acc;
     c.rule = format!(
-        "(a) every scalar of the tier's set as a one-character string, as an object key next to another member, and as a key next to its successor; (a'') strings of 24 lengths 15..70001 with one of 7 escaping-relevant characters at the start / middle / end / every second position, as string and as key; for every value except single scalars also Json::to_writer and JsonPretty::canonicalize (same bytes) and a preceding canonicalize_for_signing call on the same thread (no influence); (b) value grammar: 13 leaves, arrays <= 2 and objects <= 2 (7 keys incl. U+FFFF / U+10000) over them, nested to depth {depth_done} over reduced child sets; (c) all 343 key triples; (d) integers 0, +-2^k, +-2^k+-1 (k<=64), 10^k, 10^k-1, extremes and 15 non-integer spellings in 5 contexts; (e) all spellings (6 whitespace fillers x 2 member orders x 5 escape modes x 2 channels) of {} values. distinct_nontrivial counts scalars + grammar values + non-integer cases",
+        "(a) every scalar of the tier's set as a one-character string, as an object key next to another member, and as a key next to its successor; (a+) every ordered pair over the 32 C0 controls, DEL, a letter, quote and backslash and every triple over 9 of them, as string and as key; (a'') strings of 24 lengths 15..70001 with one of 7 escaping-relevant characters at the start / middle / end / every second position, as string and as key; for every value except single scalars also Json::to_writer and JsonPretty::canonicalize (same bytes) and a preceding canonicalize_for_signing call on the same thread (no influence); (b) value grammar: 13 leaves, arrays <= 2 and objects <= 2 (7 keys incl. U+FFFF / U+10000) over them, nested to depth {depth_done} over reduced child sets; (c) all 343 key triples; (d) integers 0, +-2^k, +-2^k+-1 (k<=64), 10^k, 10^k-1, extremes and 15 non-integer spellings in 5 contexts; (e) all spellings (6 whitespace fillers x 2 member orders x 5 escape modes x 2 channels) of {} values. distinct_nontrivial counts scalars + grammar values + non-integer cases",
         subset.len()
     );
     c.bound_completed = format!("scalars: {}; grammar depth {depth_done}", "all 1,112,064");
